@@ -1,4 +1,4 @@
 ---- MODULE DSFDControl_MC ----
 EXTENDS DSFDControl
-MC_Cfgs == [S : 1..4, avg : BOOLEAN, R : {0, 2, 4, 6, 8}]
+MC_Cfgs == [S : 1..4, avg : BOOLEAN, R : {0, 2, 3, 4, 6, 8}]
 ====
